@@ -517,7 +517,7 @@ def extract():
 def generate():
     try:
         d = extract()
-    except Unsupported as u:
+    except (Unsupported, ValueError, TypeError, IndexError, KeyError, AttributeError, AssertionError, RecursionError) as u:   # any surprise in the source = fail closed
         return (failed("DistnGen", str(u)) +
                 "From PV Require Import Distn.\nDefinition table : list (key * impl) := nil.\n"
                 "Definition rtable : list (rkey * rimpl) := nil.\n"
